@@ -181,9 +181,14 @@ class Borderline(Exception):
         self.value = value
 
 
+TRACE = set()  # coverage tags set by coerce_input (reset by callers that want them)
+
+
 def coerce_input(schema, t, v, path=(), borderline="reject"):
     """JSON value -> coerced value for input type t (parsed).  borderline:
     'reject' | 'accept' decides how Borderline leaves are treated."""
+    if len(path) >= 2:
+        TRACE.add("depth2")
     if t[0] == "NN":
         if v is None:
             raise RefInputError("null for non-null", path)
@@ -193,6 +198,7 @@ def coerce_input(schema, t, v, path=(), borderline="reject"):
     if t[0] == "L":
         if isinstance(v, list):
             return [coerce_input(schema, t[1], x, path + (i,), borderline) for i, x in enumerate(v)]
+        TRACE.add("list_wrap")
         return [coerce_input(schema, t[1], v, path, borderline)]
     name = t[1]
     k = kind_of(schema, name)
@@ -213,6 +219,7 @@ def coerce_input(schema, t, v, path=(), borderline="reject"):
             if fn in v:
                 out[fn] = coerce_input(schema, ft, v[fn], path + (fn,), borderline)
             elif "default" in fd:
+                TRACE.add("field_default")
                 out[fn] = coerce_literal(schema, ft, fd["default"], {})
             elif ft[0] == "NN":
                 raise RefInputError("missing required field %s" % fn, path + (fn,))
